@@ -31,6 +31,7 @@ type Cfg struct {
 	HTTP        bool    `json:"http"`         // allow http documents
 	RootElems   bool    `json:"rootelems"`    // root has parameters/responses sections
 	CaseTwins   bool    `json:"casetwins"`    // some definitions get a twin whose name differs in letter case only
+	FragIDs     bool    `json:"fragids"`      // some schemas carry a fragment-only id ("#anchor7"): re-scoping is the identity, so the id-agnostic model stays exact
 	IDScopes    bool    `json:"idscopes"`     // self-contained sub-schemas that declare an id (from a tiny pool) and refer to their own local definitions (C18 only: the model ignores id)
 	SelfIDs     bool    `json:"selfids"`      // bare-schema documents carry their own URL as id (published schemas)
 }
@@ -52,6 +53,7 @@ func DrawCfg(r *sim.RNG) Cfg {
 		HTTP:      r.Bool(0.5),
 		RootElems: r.Bool(0.8),
 		CaseTwins: r.Bool(0.2),
+		FragIDs:   r.Bool(0.15),
 	}
 	all := []string{"properties", "items", "itemsArr", "allOf", "anyOf", "oneOf", "not", "additionalProperties", "patternProperties", "dependencies", "additionalItems", "definitions"}
 	if r.Bool(0.5) {
@@ -256,6 +258,9 @@ func (g *gen) schema(doc string, d int, ord int, top bool) map[string]interface{
 	}
 	g.uniq++
 	s := map[string]interface{}{"description": fmt.Sprintf("node%d", g.uniq)}
+	if g.cfg.FragIDs && g.r.Intn(3) == 0 {
+		s["id"] = fmt.Sprintf("#anchor%d", g.uniq)
+	}
 	if g.r.Intn(4) == 0 {
 		// a primitive type next to composition keywords is legal (and unusual)
 		s["type"] = []string{"object", "string", "array", "integer"}[g.r.Intn(4)]
